@@ -1159,13 +1159,7 @@ def stream_entrypoints(chk, i, rng):
 # Misbehaviour of the UNCHANGED tree at the new corners, reported to the coordinator (who decides fix / known finding / out of
 # scope).  Until then these exact call classes are recorded as observations in the evidence notes, not as failures.
 OBSERVED = [
-    (r"repr:Kauri\.(fit|fit_predict|score):y-(int64|int32|float32|bool)$",
-     "Kauri(kernel='precomputed').fit / fit_predict / score(X, K) with K of dtype int64 / int32 / float32 raises ValueError('Buffer dtype mismatch, expected float64_t'); "
-     "the same values as float64 work (the GEMINI route accepts these dtypes)"),
-    (r"repr:Kauri\.score:y-read-only$",
-     "Kauri(kernel='precomputed').fit(X, K).score(X, K_readonly) raises ValueError('buffer source array is read-only') although fit(X, K_readonly) works"),
-    (r"repr:Kauri\.score:X-float32$",
-     "Kauri(kernel=<name>).fit(X).score(X.astype(float32)) raises ValueError('Buffer dtype mismatch'): score computes the kernel on the raw float32 X"),
+    # out of scope by the coordinator's decision (y is documented as an ndarray): kept as a note
     (r"repr:Sparse(Linear|MLP)(MMD|Model)\.path:y-(list|tuple)$",
      "Sparse*(kernel='precomputed').path(X, K.tolist()) raises TypeError('list indices must be integers or slices, not tuple') in compute_val_score although fit(X, K.tolist()) works"),
 ]
